@@ -1,22 +1,18 @@
-import BlochVerif.Eval.Model
+import BlochVerif.Eval.Frame
 /-!
 # C09 — scoping is lexical
 
 About the evaluator model's environment: `enterFrame` starts a frame of exactly one scope at every call,
 `lookup` and `assignVar` consult only the innermost `frameDepth` scopes.  Hence the scopes of the caller
 (everything below the current frame) can neither influence what a name evaluates to nor be changed by an
-assignment in the callee.  The renaming corollary of the property (consistent renaming of a local never
-changes the output) is checked on the real pipeline and the model by `tools/props/c09.py`; an
-alpha-equivalence theorem for the whole evaluator is not proved (PARTIAL).
+assignment in the callee — first for the primitives, then, through the evaluator's induction principle
+(`Eval/Closed.lean`, `Eval/Frame.lean`), for every call of every function at every fuel:
+`a_call_never_sees_or_changes_its_callers_environment`.  The renaming corollary of the property (consistent renaming
+of a local never changes the output) is checked on the real pipeline and the model by `tools/props/c09.py`; an
+alpha-equivalence theorem is not proved (PARTIAL), nor is the class fragment modelled.
 -/
 namespace BlochVerif.Props.C09
 open BlochVerif BlochVerif.Eval BlochVerif.Parse
-
-/-- what a name evaluates to is a function of the current frame only -/
-def frameLookup (frame : List Scope) (name : String) : Value :=
-  match frame.findSome? (fun sc => (sc.find? (·.1 == name)).map (·.2.value)) with
-  | some v => v
-  | none => {}
 
 theorem lookup_is_frameLookup (st : EState) (name : String) :
     (lookup name).run st = .ok (frameLookup (st.env.take st.frameDepth) name, st) := by
@@ -39,19 +35,6 @@ theorem call_starts_with_an_empty_frame (st : EState) :
   refine ⟨{ st with env := [] :: st.env, frameDepth := 1 }, ?_, by simp, by simp⟩
   simp [enterFrame, StateT.run, bind, StateT.bind, get, getThe, MonadStateOf.get, StateT.get, set, StateT.set, pure,
     Except.pure, Except.bind, StateT.pure]
-
-theorem go_length (name : String) (v : Value) : ∀ (l l' : List Scope), assignVar.go name v l = some l' → l'.length = l.length := by
-  intro l
-  induction l with
-  | nil => intro l' h; simp [assignVar.go] at h
-  | cons sc rest ih =>
-    intro l' h
-    simp only [assignVar.go] at h
-    split at h
-    · cases h; simp
-    · cases hg : assignVar.go name v rest with
-      | none => simp [hg] at h
-      | some r => simp [hg] at h; subst h; simp [ih r hg]
 
 /-- A callee never changes its caller's locals: an assignment leaves every scope below the current frame
 exactly as it was. -/
@@ -84,5 +67,25 @@ theorem callee_never_changes_caller_locals (st st' : EState) (name : String) (v 
       obtain ⟨d, hd'⟩ : ∃ d, st.frameDepth = d + 1 := ⟨st.frameDepth - 1, by omega⟩
       rw [hd']
       simp
+
+/-- **Whole-evaluator form.**  Run any call of any function with any arguments in two states that differ only in
+the caller's environment (all of it: its own frame and everything below) and frame depth: the result or the error
+is the same, every other component of the final state is the same, and each run hands back exactly the environment
+it was given.  No fuel bound, no restriction on the function body (loops, nested calls, recursion, blocks,
+declarations, quantum statements). -/
+theorem a_call_never_sees_or_changes_its_callers_environment (fuel : Nat) (fn : FuncDecl) (args : List Value)
+    (st : EState) (env' : List Scope) (depth' : Nat) :
+    (call fuel fn args).run { st with env := env', frameDepth := depth' } =
+      ((call fuel fn args).run st).map (fun r => (r.1, { r.2 with env := env', frameDepth := depth' })) ∧
+    ∀ v st', (call fuel fn args).run st = .ok (v, st') → st'.env = st.env ∧ st'.frameDepth = st.frameDepth :=
+  call_cut_off fuel fn args st env' depth'
+
+/-- inside a function body every expression, statement and nested call leaves the scopes below the current frame
+as they were and is unaffected by replacing them -/
+theorem statements_are_frame_independent (fuel : Nat) (s : Stmt) : FrameInd (exec fuel s) := frameInd_exec fuel s
+
+/-- non-vacuity: a frame state exists, and replacing what is below it is not the identity -/
+example : FWF { sim := Sim.State.init Sim.floatOps, env := [[], [("x", { value := {} })]], frameDepth := 1 } := by
+  unfold FWF; simp
 
 end BlochVerif.Props.C09
